@@ -80,6 +80,16 @@ def machine_factory(ctx):
             self.step("posterior", seed=seed, n_linear=n_linear, which=which)
 
         @precondition(lambda self: self.ready)
+        @rule(seed=st.integers(0, 2**31), n_batches=st.integers(1, 9), n_prior=st.one_of(st.none(), st.integers(1, 8)))
+        def rej_shuffled(self, seed, n_batches, n_prior):
+            self.step("rej_shuffled", seed=seed, n_batches=n_batches, n_prior=n_prior)
+
+        @precondition(lambda self: self.ready)
+        @rule(factor=st.sampled_from([0.1, 3.0, 25.0]), path=st.sampled_from(["mem", "cache"]))
+        def other_data(self, factor, path):
+            self.step("other_data", factor=factor, path=path)
+
+        @precondition(lambda self: self.ready)
         @rule()
         def pickle_helper(self):
             self.step("pickle_helper")
@@ -123,9 +133,11 @@ def machine_factory(ctx):
             m = int(g.integers(1, self.n + 1))
             idx = g.permutation(self.n)[:m] if g.random() < 0.7 else np.sort(g.permutation(self.n)[:m])
             sub = self.lib[idx]
-            joker = tj.TheJoker(self.prior)
             if persistent:
+                joker = tj.TheJoker(self.prior)
                 joker._make_joker_helper = lambda data: self.helper
+            else:
+                joker = self.joker  # one TheJoker object for the whole history
             with ctx.sut("marginal_ln_likelihood[%s]" % path):
                 if path == "mem":
                     ll = joker.marginal_ln_likelihood(self.data, sub, in_memory=True)
@@ -189,6 +201,42 @@ def machine_factory(ctx):
             self.stressed = True
             self.stress_before_probe = True
             self.kinds.append("posterior:" + which)
+
+        def do_rej_shuffled(self, seed, n_batches, n_prior):
+            """shuffled evaluation order: likelihoods must come back in that order, whatever the batching"""
+            from vt.recgen import RecordingGenerator
+
+            n_prior = None if n_prior is None else min(n_prior, self.n)
+            outs = []
+            for nb in (1, n_batches):
+                rg = RecordingGenerator(np.random.PCG64(seed))
+                joker = tj.TheJoker(self.prior, rng=rg)
+                with ctx.sut("rejection_sample(randomize_prior_order=True)"):
+                    out, lls = joker.rejection_sample(self.data, self.libfile, randomize_prior_order=True, n_prior_samples=n_prior,
+                                                      n_batches=nb, return_all_logprobs=True)
+                ch = rg.calls("choice")
+                if len(ch) != 1:
+                    raise Violation("expected one rng.choice call for the shuffled order, saw %d" % len(ch))
+                idx = np.asarray(ch[0]["out"])
+                self._expect(lls, idx, "shuffled order, n_batches=%d" % nb)
+                outs.append((idx.tobytes(), np.asarray(out["P"].value).tobytes()))
+            if outs[0] != outs[1]:
+                raise Violation("equal seeds: shuffled rejection sampling depends on n_batches")
+            self.paths_used.add(("shuffled", min(n_batches, 3)))
+            self.kinds.append("rej_shuffled")
+
+        def do_other_data(self, factor, path):
+            """the same TheJoker evaluates another data set (same epochs and velocities, other uncertainties)"""
+            spec2 = dict(self.spec, surveys=[dict(sv, err=[e * factor for e in sv["err"]]) for sv in self.spec["surveys"]])
+            data2 = gens.build_data(spec2)
+            with ctx.sut("marginal_ln_likelihood on another data set"):
+                got = np.asarray(self.joker.marginal_ln_likelihood(data2, self.lib, in_memory=path == "mem"))
+                want = np.asarray(tj.TheJoker(self.prior).marginal_ln_likelihood(data2, self.lib, in_memory=True))
+            if got.tobytes() != want.tobytes():
+                raise Violation("a TheJoker that evaluated one data set before gives other likelihoods for a second data set "
+                                "than a fresh TheJoker", got=got[:6], want=want[:6], history=[l[0] for l in self.log][-8:])
+            self.stressed = True
+            self.kinds.append("other_data")
 
         def do_pickle_helper(self):
             with ctx.sut("pickling the helper"):
